@@ -377,8 +377,19 @@ pub fn run(tier: Tier) -> i32 {
     }
     let l = par_for(core.len(), |i, local| check_spellings(&core[i], Some(2), 3_000_000, local));
     run.absorb(l);
+    // three deviations at once on a small kind-complete set (thorough: also the pool containers)
+    let mut b3: Vec<V> = u::pool_scalars();
+    b3.extend([u::small_grid(), u::meta_grid(), V::dict(&[("a", V::num(1.0)), ("b", V::Marker)]), V::List(vec![V::num(1.0), V::str("s")])]);
+    if tier == Tier::Thorough {
+        b3.extend(u::pool_containers1());
+    }
+    let l = par_for(b3.len(), |i, local| {
+        check_spellings(&b3[i], Some(3), tier.pick(400_000, 8_000_000), local);
+        local.count("d2-bound3");
+    });
+    run.absorb(l);
     run.exhaustive = run.counter("capped-values") == 0;
-    for t in ["member-order", "dict-kind-member", "grid-meta-spelling", "column-meta-spelling", "utc-tz-member", "number-spelling", "escape-spelling", "whitespace", "fraction-digits", "zero-offset-spelling"] {
+    for t in ["member-order", "dict-kind-member", "grid-meta-spelling", "column-meta-spelling", "utc-tz-member", "number-spelling", "escape-spelling", "whitespace", "fraction-digits", "zero-offset-spelling", "val-in-utc"] {
         run.require(run.counter(&format!("deviated:{t}")) > 0, &format!("choice-point type {t} never deviated"));
     }
     run.require(run.counter("d1-values") > 50_000, "direction 1 too small");
